@@ -11,6 +11,7 @@ import (
 	"verif/harness"
 	"verif/peer"
 	"verif/ref"
+	"verif/vsched"
 )
 
 // C02 — the client sends each request intact and each caller gets exactly its
@@ -461,6 +462,9 @@ func defaultResp(tag string) c02Resp {
 
 func runC02(c *fw.Ctx) {
 	runSpxFamily(c, "C02")
+	if vsched.DefaultPolicy == 0 {
+		runC02Hist(c)
+	}
 	thorough := c.Tier == "thorough"
 	var item int64
 	sampled := 0
@@ -648,6 +652,13 @@ func runC02(c *fw.Ctx) {
 }
 
 func replayC02(raw json.RawMessage) (string, bool) {
+	var fam struct {
+		Family string `json:"family"`
+	}
+	json.Unmarshal(raw, &fam)
+	if fam.Family == "c02hist" {
+		return replayC02Hist(raw)
+	}
 	var r struct {
 		Scenario c02Scenario `json:"scenario"`
 	}
